@@ -232,4 +232,121 @@ theorem verifyMulti_sound (P : Prims) (d : Hash) (keys : List Nat) (m : Nat) (si
   · simp only [hl, if_false] at h
     exact verifyLoop_sound P d m sigs keys h
 
+/-! ### explicit post-state of an added block -/
+
+theorem applyEffects_append (a b : List Step) (l : Ledger) : applyEffects (a ++ b) l = applyEffects b (applyEffects a l) := by
+  induction a generalizing l with
+  | nil => rfl
+  | cons s r ih => cases s <;> simp [applyEffects, ih]
+
+theorem foldl_putBlock (f : Tx → W) (txs : List Tx) (l : Ledger) :
+    txs.foldl (fun l t => putBlock (f t) l) l
+      = { l with mem := { l.mem with bBlock := (txs.map f).reverse ++ l.mem.bBlock } } := by
+  induction txs generalizing l with
+  | nil => simp
+  | cons t r ih => rw [List.foldl_cons, ih]; simp [putBlock]
+
+theorem foldl_putEvent (f : Hash → W) (hs : List Hash) (l : Ledger) :
+    hs.foldl (fun l t => putEvent (f t) l) l
+      = { l with mem := { l.mem with bEvent := (hs.map f).reverse ++ l.mem.bEvent } } := by
+  induction hs generalizing l with
+  | nil => simp
+  | cons t r ih => rw [List.foldl_cons, ih]; simp [putEvent]
+
+/-- the writes of one block, newest first, as `submitBlock` batches them -/
+def blockBatch (P : Prims) (b : Block) : List W :=
+  let hash := P.hdrHash b.hdr.u
+  let h := b.hdr.u.height
+  .bloom h :: ((b.txs.map fun t => W.tx (P.txHash t) t h).reverse ++ [.header hash b.hdr (b.txs.map P.txHash), .blockHash h hash, .curBlock h hash])
+
+def stateBatch (P : Prims) (b : Block) (l : Ledger) (ws : Hash) (st : St) : List W :=
+  [.state st, .curBlock b.hdr.u.height (P.hdrHash b.hdr.u), .blockTree (l.mem.blockLeaves ++ [b.hdr.u.txRoot]),
+   .stateRoot b.hdr.u.height ws (P.stateRootWith l.mem.deltaLeaves ws), .stateTree (l.mem.deltaLeaves ++ [ws])]
+
+def eventBatch (P : Prims) (b : Block) : List W :=
+  let hs := b.txs.map P.txHash
+  .curBlock b.hdr.u.height (P.hdrHash b.hdr.u) :: ((if hs.isEmpty then [] else [W.evBlock b.hdr.u.height hs]) ++ (hs.map W.notify).reverse)
+
+/-- the ledger after `b` was added on top of `l` (execution result `(ws, st)`): the specification of acceptance -/
+def addedLedger (P : Prims) (b : Block) (l : Ledger) (ws : Hash) (st : St) : Ledger :=
+  let hash := P.hdrHash b.hdr.u
+  let h := b.hdr.u.height
+  { disk := { block := blockBatch P b ++ l.disk.block, state := stateBatch P b l ws st ++ l.disk.state,
+              event := eventBatch P b ++ l.disk.event },
+    mem := { curHeight := h, curHash := hash, hdrIndex := (h, hash) :: l.mem.hdrIndex,
+             hdrLast := if l.mem.hdrLast < h then h else l.mem.hdrLast,
+             hdrCache := l.mem.hdrCache.filter (fun e => e.1 ≠ hash),
+             blockLeaves := l.mem.blockLeaves ++ [b.hdr.u.txRoot], deltaLeaves := l.mem.deltaLeaves ++ [ws],
+             closing := l.mem.closing, bBlock := blockBatch P b, bState := stateBatch P b l ws st, bEvent := eventBatch P b } }
+
+theorem submit_effects (P : Prims) (b : Block) (l : Ledger) (ws : Hash) (st : St) (he : execRes P l b = some (ws, st)) :
+    delHeaderCache (P.hdrHash b.hdr.u) (applyEffects (submitSteps P b) l) = addedLedger P b l ws st := by
+  have he' : P.exec (curState l.disk.state) b.hdr.u b.txs = some (ws, st) := he
+  simp only [submitSteps, applyEffects, foldl_putBlock, foldl_putEvent]
+  simp only [putBlock, putState, putEvent, setHeaderIndex, execRes, he',
+    delHeaderCache, addedLedger, blockBatch, stateBatch, eventBatch]
+  by_cases hemp : (b.txs.map P.txHash).isEmpty = true <;> simp [hemp]
+
+theorem addBlock_effects (P : Prims) (b : Block) (sr : Hash) (l : Ledger) (ws : Hash) (st : St) (he : execRes P l b = some (ws, st)) :
+    applyEffects (addBlockSteps P b sr) l = addedLedger P b l ws st := by
+  have e1 : applyEffects (heightGuards b) l = l := rfl
+  have e2 : applyEffects (verifyHeaderSteps P b.hdr) l = l := rfl
+  simp only [addBlockSteps, applyEffects_append, e1, e2, applyEffects]
+  exact submit_effects P b l ws st he
+
+theorem submitBlock_effects (P : Prims) (b : Block) (l : Ledger) (ws : Hash) (st : St) (he : execRes P l b = some (ws, st)) :
+    applyEffects (submitBlockSteps P b) l = addedLedger P b l ws st := by
+  have e1 : applyEffects (heightGuards b) l = l := rfl
+  have e2 : applyEffects (verifyHeaderSteps P b.hdr) l = l := rfl
+  simp only [submitBlockSteps, applyEffects_append, e1, e2, applyEffects]
+  exact submit_effects P b l ws st he
+
+theorem findHeaderW_skip (x : Hash) (ts r : List W) (h : ∀ w ∈ ts, ∃ a t c, w = W.tx a t c) :
+    findHeaderW x (ts ++ r) = findHeaderW x r := by
+  induction ts with
+  | nil => rfl
+  | cons w ts ih =>
+    obtain ⟨a, t, c, rfl⟩ := h w (by simp)
+    simp only [List.cons_append, findHeaderW]
+    exact ih (fun w hw => h w (by simp [hw]))
+
+theorem findBlockHash_skip (n : Nat) (ts r : List W) (h : ∀ w ∈ ts, ∃ a t c, w = W.tx a t c) :
+    findBlockHash n (ts ++ r) = findBlockHash n r := by
+  induction ts with
+  | nil => rfl
+  | cons w ts ih =>
+    obtain ⟨a, t, c, rfl⟩ := h w (by simp)
+    simp only [List.cons_append, findBlockHash]
+    exact ih (fun w hw => h w (by simp [hw]))
+
+theorem findCache_filter_self (x : Hash) (c : List (Hash × Hdr)) : findCache x (c.filter (fun e => e.1 ≠ x)) = none := by
+  induction c with
+  | nil => rfl
+  | cons e r ih =>
+    obtain ⟨q, hd⟩ := e
+    by_cases h : q = x
+    · simp [List.filter, h, ih]
+    · simp [List.filter, h, findCache, ih]
+
+/-- what the queries see after `b` was added -/
+theorem addedLedger_reads (P : Prims) (b : Block) (l : Ledger) (ws : Hash) (st : St) :
+    let l' := addedLedger P b l ws st
+    l'.mem.curHeight = b.hdr.u.height ∧ l'.mem.curHash = P.hdrHash b.hdr.u
+      ∧ lookupHeader l' (P.hdrHash b.hdr.u) = some b.hdr
+      ∧ findBlockHash b.hdr.u.height l'.disk.block = some (P.hdrHash b.hdr.u)
+      ∧ curState l'.disk.state = st
+      ∧ l'.mem.blockLeaves = l.mem.blockLeaves ++ [b.hdr.u.txRoot] ∧ l'.mem.deltaLeaves = l.mem.deltaLeaves ++ [ws] := by
+  have txs : ∀ w ∈ (b.txs.map fun t => W.tx (P.txHash t) t b.hdr.u.height).reverse, ∃ a t c, w = W.tx a t c := by
+    intro w hw
+    simp only [List.mem_reverse, List.mem_map] at hw
+    obtain ⟨t, _, rfl⟩ := hw
+    exact ⟨_, _, _, rfl⟩
+  refine ⟨rfl, rfl, ?_, ?_, rfl, rfl, rfl⟩
+  · simp only [lookupHeader, addedLedger, findCache_filter_self, blockBatch, List.cons_append, findHeaderW, List.append_assoc]
+    rw [findHeaderW_skip _ _ _ txs]
+    simp [findHeaderW]
+  · simp only [addedLedger, blockBatch, List.cons_append, findBlockHash, List.append_assoc]
+    rw [findBlockHash_skip _ _ _ txs]
+    simp [findBlockHash]
+
 end OntVerif.Proofs.AddBlock
